@@ -126,6 +126,107 @@ theorem gjk_cast_none_exits {Sx : Type} (hs : LawfulSqrt sq) (ops : SimplexOps K
   intro hc hr
   exact (minkowskiRayCast_good sq hs (fun _ => False) ops supp big dim ray maxToi (fun _ _ h => h.elim) hd hc).2.2.2 hr
 
+/-- **Support-map wrapper (`local_ray_intersection_with_support_map_with_params`), direct path** (solid cast, or
+non-solid with a non-zero first time): the reported time is the time of the first GJK cast, hence a lower bound of the
+first hit; the feature is `Unknown`. -/
+theorem gjk_wrapper_lower_bound {Sx : Type} (hs : LawfulSqrt sq) (S : V3 K → Prop) (ops : SimplexOps K Sx)
+    (supp : V3 K → V3 K) (big : K) (dim : Nat) (ray : Ray3 K) (maxToi : K) (solid : Bool) (hsupp : Supports S supp)
+    (hd : 0 < dotK ray.d ray.d) (h : Hit3 K) :
+    letI := fieldNum K sq
+    (localRayIntersectionWithSupportMap ops supp big dim ray maxToi solid).res = some h →
+    (localRayIntersectionWithSupportMap ops supp big dim ray maxToi solid).recast = false →
+    (localRayIntersectionWithSupportMap ops supp big dim ray maxToi solid).clean1 = true →
+    0 ≤ h.toi ∧ (∀ s, 0 ≤ s → s < h.toi → ¬ S (rayPt sq ray s)) ∧ h.fkind = 2 := by
+  simp only [localRayIntersectionWithSupportMap]
+  rcases hr : (@minkowskiRayCast K (fieldNum K sq) Sx ops supp big dim ray maxToi).res with _ | ⟨toi, n⟩
+  · simp
+  · simp only
+    split_ifs
+    · rcases (@minkowskiRayCast K (fieldNum K sq) Sx ops supp big dim _ _).res with _ | ⟨toi2, n2⟩
+      · simp
+      · simp only; split_ifs <;> simp
+    · intro h1 _ hc
+      simp only [Option.some.injEq] at h1
+      subst h1
+      obtain ⟨a, b⟩ := gjk_cast_lower_bound sq hs S ops supp big dim ray maxToi hsupp hd toi n hc hr
+      exact ⟨a, b, rfl⟩
+
+/-- **Support-map wrapper, non-solid cast from inside (the re-cast)**: the first cast returned time 0, the shape is
+re-cast backwards along the unit direction from beyond its support plane, and the reported time
+`(shift − toi₂)/|dir|` is an UPPER bound of the last parameter at which the ray is in the shape — after the reported exit
+the ray never meets the shape again — and it is `≤ max_toi`; for every direction length (this is the clause that the pinned
+tree violated for `|dir| ≠ 1`). -/
+theorem gjk_wrapper_nonsolid_exit {Sx : Type} (hs : LawfulSqrt sq) (S : V3 K → Prop) (ops : SimplexOps K Sx)
+    (supp : V3 K → V3 K) (big : K) (dim : Nat) (ray : Ray3 K) (maxToi : K) (solid : Bool) (hsupp : Supports S supp)
+    (hd : 0 < dotK ray.d ray.d) (h : Hit3 K) :
+    letI := fieldNum K sq
+    (localRayIntersectionWithSupportMap ops supp big dim ray maxToi solid).res = some h →
+    (localRayIntersectionWithSupportMap ops supp big dim ray maxToi solid).recast = true →
+    (localRayIntersectionWithSupportMap ops supp big dim ray maxToi solid).clean2 = true →
+    h.toi ≤ maxToi ∧ ∀ s, h.toi < s → ¬ S (rayPt sq ray s) := by
+  have hlen := rayLen_pos sq hs ray.d hd
+  have hn : (@V3.norm K (fieldNum K sq) ray.d) = sq (dotK ray.d ray.d) := rfl
+  simp only [localRayIntersectionWithSupportMap, hn]
+  generalize hL : sq (dotK ray.d ray.d) = len at hlen
+  rcases (@minkowskiRayCast K (fieldNum K sq) Sx ops supp big dim ray maxToi).res with _ | ⟨toi, n⟩
+  · simp
+  · simp only
+    split_ifs
+    · -- the re-cast
+      set u := @V3.sdiv K (fieldNum K sq) ray.d len with hu
+      set shift := (@V3.dot K (fieldNum K sq) (@V3.sub K (fieldNum K sq) (supp u) ray.o) u) + @lit K (fieldNum K sq) 1 1000
+        with hshift
+      set newRay : Ray3 K := ⟨@V3.add K (fieldNum K sq) ray.o (@V3.smul K (fieldNum K sq) u shift), @V3.neg K (fieldNum K sq) u⟩
+        with hnr
+      have huu : dotK u u = 1 := by
+        have h2 := hs.sq_mul _ hd.le
+        rw [hL] at h2
+        simp only [hu, dotK, V3.sdiv]
+        have hne := ne_of_gt hlen
+        field_simp
+        simp only [dotK] at h2
+        linarith
+      have hd2 : 0 < dotK newRay.d newRay.d := by
+        have : dotK newRay.d newRay.d = dotK u u := by simp only [hnr, dotK, V3.neg]; ring
+        rw [this, huu]; exact one_pos
+      rcases hr2 : (@minkowskiRayCast K (fieldNum K sq) Sx ops supp big dim newRay
+          (shift + @lit K (fieldNum K sq) 1 1000)).res with _ | ⟨toi2, n2⟩
+      · simp
+      · simp only
+        split_ifs with hle
+        · intro h1 _ hc
+          simp only [Option.some.injEq] at h1
+          subst h1
+          refine ⟨hle, fun s hlt hS => ?_⟩
+          simp only at hlt
+          obtain ⟨_, hb⟩ := gjk_cast_lower_bound sq hs S ops supp big dim newRay _ hsupp hd2 toi2 n2 hc hr2
+          have hσ : shift - toi2 < s * len := by
+            have := (div_lt_iff₀ hlen).1 hlt; linarith
+          have hpt : ∀ σ : K, rayPt sq newRay (shift - σ) = lin ray.o u σ := by
+            intro σ
+            simp only [rayPt, Ray3.pointAt, hnr, V3.add, V3.smul, V3.neg, lin, V3.mk.injEq]
+            refine ⟨by ring, by ring, by ring⟩
+          have hray : rayPt sq ray s = lin ray.o u (s * len) := by
+            have hne := ne_of_gt hlen
+            simp only [rayPt, Ray3.pointAt, V3.add, V3.smul, lin, hu, V3.sdiv, V3.mk.injEq]
+            refine ⟨?_, ?_, ?_⟩ <;> · congr 1; field_simp
+          rw [hray] at hS
+          rcases le_or_gt (s * len) shift with hin | hout
+          · have := hb (shift - s * len) (by linarith) (by linarith)
+            rw [hpt] at this
+            exact this hS
+          · have h1 := hsupp u _ hS
+            rw [dotK_lin, huu] at h1
+            have heps : (0 : K) < @lit K (fieldNum K sq) 1 1000 := by
+              simp only [fieldNum_lit]; norm_num
+            have hsh : shift = dotK (supp u) u - dotK ray.o u + @lit K (fieldNum K sq) 1 1000 := by
+              simp only [hshift, V3.dot, V3.sub, dotK]; ring
+            have hc1 : dotK u (supp u) = dotK (supp u) u := by simp only [dotK]; ring
+            have hc2 : dotK u ray.o = dotK ray.o u := by simp only [dotK]; ring
+            linarith
+        · simp
+    · simp
+
 /-- non-vacuity: the support function of the cube `[-1,1]³` (`sign`-vertex) dominates the cube, over `ℚ` -/
 example : Supports (K := ℚ) (fun p => |p.x| ≤ 1 ∧ |p.y| ≤ 1 ∧ |p.z| ≤ 1)
     (fun d => ⟨if d.x < 0 then -1 else 1, if d.y < 0 then -1 else 1, if d.z < 0 then -1 else 1⟩) := by
